@@ -509,6 +509,20 @@ func (r *Run) doPush(c *PushCall) {
 	close(c.done)
 }
 
+// quiesce waits until every task whose PushTask returned nil so far has run to its end.
+func (r *Run) quiesce(d time.Duration) bool {
+	return WaitUntil(d, func() bool {
+		r.mu.Lock()
+		defer r.mu.Unlock()
+		for _, c := range r.calls {
+			if c.Res == "ok" && r.nF[c.T.ID] == 0 {
+				return false
+			}
+		}
+		return true
+	})
+}
+
 // AwaitCalls waits until every PushTask call made so far has returned.
 func (r *Run) AwaitCalls(d time.Duration) bool {
 	return WaitUntil(d, func() bool {
